@@ -9,8 +9,9 @@ ID = 'C13'
 TRANSLATORS = []
 PROPERTY_FILE = 'Properties/C13.v'
 THEOREMS = ['C13_mismatched_shapes_rejected', 'C13_ok_implies_equal_shapes', 'C13_miter_correct',
-            'C13_miter_true_iff_differ', 'C13_miter_total_default_names', 'C13_miter_total',
-            'C13_default_names_no_clash', 'C13_example']
+            'C13_miter_true_iff_differ', 'C13_miter_arities_accepted', 'C13_miter_evaluate',
+            'C13_miter_truth_table_returns', 'C13_miter_total_default_names', 'C13_miter_total',
+            'C13_default_names_no_clash', 'C13_example', 'C13_example_evaluate']
 PARTIAL = {}
 LEVEL_TEXT = ('proved for the model of build_miter (the composition add_circuit + two left connections + pairwise xor + '
               'OR/IFF of the modelled operations), for every normal return on well formed operands with non-empty block '
@@ -18,7 +19,10 @@ LEVEL_TEXT = ('proved for the model of build_miter (the composition add_circuit 
               'order, its only output is big_or; for any number of outputs >= 1 (single output: the top gate is IFF) '
               'and every total assignment of the miter inputs the output is defined and is True exactly when some pair '
               'of corresponding outputs of the two circuits differs (left circuit read at the miter inputs, i-th input '
-              'of the right circuit = i-th input of the left one); mismatched shapes give MiterDifferentShapesError '
+              'of the right circuit = i-th input of the left one); the same at the entry point: the miter has accepted '
+              'arities again, so evaluate returns on it, and for every Boolean input vector evaluate(miter) = [b] with b = '
+              '"evaluate(left) and evaluate(right) return different output vectors" (C13_miter_evaluate; soundness and '
+              'completeness of the evaluators from C01); mismatched shapes give MiterDifferentShapesError '
               'for all arguments, and a normal return implies equal shapes; totality: with the block names of the implementation '
               '("circuit1", "circuit2") build_miter returns normally for ALL well formed operands of equal shapes, and for '
               'arbitrary names exactly under the stated no-clash condition. Operands are unmodified because the model '
